@@ -14,3 +14,13 @@ UNITS = []
 
 from props import c01_ext_rewrite as _RW
 UNITS += _RW.UNITS
+from props import c01_ext_sums as _SM
+UNITS += _SM.UNITS
+from props import c01_ext_conv as _CV
+UNITS += _CV.UNITS
+from props import c01_ext_logk as _LK
+UNITS += _LK.UNITS
+from props import c01_ext_readouts as _RO
+UNITS += _RO.UNITS
+from props import c01_ext_punch as _PU
+UNITS += _PU.UNITS
